@@ -163,7 +163,7 @@ def main():
         "setup_cmd": "./setup.sh",
         "hooks": {
             "guard": "EXO_VERIF",
-            "enable": "no source hooks are needed: every check observes the real code through public entry points and harness-side wrappers; EXO_VERIF=1 is exported by ./vcheck for future use",
+            "enable": "no source hooks are needed: every check observes the real code through public entry points and harness-side wrappers installed at run time by the checks themselves (IndexRangeEnvironment.check_expr_bound(s) for C13; AtomicSchedulingOp.__call__ while a composite schedule runs, to decompose it into primitive steps); nothing in /repo is guarded. EXO_VERIF=1 is exported by ./vcheck for future use",
             "baseline_off_cmd": "cd /repo && /venv/bin/python -m pytest -ra -q -p no:cacheprovider --timeout=900 --continue-on-collection-errors",
             "source_commits": [],
             "add_only": True,
